@@ -34,15 +34,16 @@ def _str(ba):
     return ''.join('1' if ba.bit(i) else '0' for i in range(ba.n))
 
 
-def run(interp, seed=0, quick=True):
-    """-> (cases, failures[list of str])"""
+def run(interp, seed=0, quick=True, part=0, parts=1):
+    """-> (cases, failures[list of str]).  With parts > 1 the exhaustive bitarray domain is split between `parts` calls (the
+    slice-arithmetic and integer-conversion sections run in part 0 only)."""
     fails = []
     cases = 0
-    rng = random.Random(seed)
+    rng = random.Random(seed * 131 + part)
     idx = [None] + list(range(-11, 12))
     steps = [None, 1, 2, 3, 4, -1, -2, -3, -4]
     # 1. slice arithmetic against CPython
-    for n in range(0, 9):
+    for n in (range(0, 9) if part == 0 else ()):
         for st in steps:
             for a in idx:
                 for b in idx:
@@ -51,13 +52,13 @@ def run(interp, seed=0, quick=True):
                     rs = slice(a, b, st).indices(n)
                     if (s, e, stp) != rs or cnt != len(range(*rs)):
                         fails.append(f'adjust_indices n={n} {a}:{b}:{st} -> {(s, e, stp, cnt)} vs {rs}')
-    for n in (3,):
+    for n in ((3,) if part == 0 else ()):
         r = _model_call(lambda: extern.adjust_indices(interp, n, None, None, 0))
         if r != ('exc', 'ValueError'):
             fails.append('step 0 must raise ValueError')
     # 2. bitarray as a list of bits
     maxlen = 4 if quick else 6
-    all_bits = [bits for L in range(0, maxlen + 1) for bits in itertools.product([0, 1], repeat=L)]
+    all_bits = [bits for L in range(0, maxlen + 1) for bits in itertools.product([0, 1], repeat=L)][part::parts]
     small_idx = [None, -7, -6, -5, -3, -2, -1, 0, 1, 2, 3, 4, 5, 6, 7]
     small_steps = [None, 1, 2, 3, -1, -2, -3]
     vals = [bits for L in range(0, 4) for bits in itertools.product([0, 1], repeat=L)]
@@ -227,6 +228,8 @@ def run(interp, seed=0, quick=True):
                         if m != r:
                             fails.append(f'search {bits} {other} {a} {b} {right}: {m} vs {r}')
     # 3. integer conversions
+    if part != 0:
+        return cases, fails
     for n in range(-1, 7):
         for v in range(-40, 70):
             for signed in (False, True):
